@@ -1297,6 +1297,12 @@ def instances(tier: str) -> List[Tuple[str, tuple, dict, Callable[..., Callable[
     I += [("slitherlink", (2, 2, [[-1, -1], [-1, -1]]), {}, rule_slitherlink),
           ("slitherlink", (2, 2, [[3, -1], [-1, 0]]), {}, rule_slitherlink),
           ("slitherlink", (1, 3, [[2, -1, 3]]), {}, rule_slitherlink)]
+    # every clue value alone in every cell of the 2x2 board
+    for (cy, cx) in ((0, 0), (0, 1), (1, 0), (1, 1)):
+        for v_ in (0, 1, 2, 3):
+            g_ = [[-1, -1], [-1, -1]]
+            g_[cy][cx] = v_
+            I.append(("slitherlink", (2, 2, g_), {}, rule_slitherlink))
     if deep:
         I += [("slitherlink", (2, 3, [[-1, 2, -1], [1, -1, 3]]), {}, rule_slitherlink), ("slitherlink", (3, 2, [[0, -1], [-1, 2], [3, -1]]), {}, rule_slitherlink)]
     # masyu (cells are lattice points)
@@ -1443,6 +1449,12 @@ def instances(tier: str) -> List[Tuple[str, tuple, dict, Callable[..., Callable[
             g_ = [[-1] * 3 for _ in range(3)]
             g_[cy][cx] = n_
             I.append(("nurimisaki", (3, 3, g_), {}, rule_nurimisaki))
+    # ... and one solvable board per direction of the cape's line x (line ends at the board edge / at a black cell)
+    for (h_, w_, (cy, cx), n_) in ((3, 4, (0, 0), 4), (3, 4, (0, 3), 4), (3, 4, (1, 0), 2), (3, 4, (1, 3), 2),
+                                   (4, 3, (0, 0), 4), (4, 3, (0, 1), 2), (4, 3, (3, 0), 4), (4, 3, (3, 1), 2)):
+        g_ = [[-1] * w_ for _ in range(h_)]
+        g_[cy][cx] = n_
+        I.append(("nurimisaki", (h_, w_, g_), {}, rule_nurimisaki))
     # castle wall (cells are lattice points)
     I += [("castle_wall", (3, 3, [["..", "..", ".."], ["..", ">1", ".."], ["..", "..", ".."]], [[None] * 3, [None, True, None], [None] * 3]), {}, rule_castle_wall),
           ("castle_wall", (3, 3, [["v1", "..", ".."], ["..", "..", ".."], ["..", "..", ".."]], [[False, None, None], [None] * 3, [None] * 3]), {}, rule_castle_wall),
@@ -1464,6 +1476,11 @@ def instances(tier: str) -> List[Tuple[str, tuple, dict, Callable[..., Callable[
           ("shakashaka", (2, 2, [[None, 1], [None, None]]), {}, rule_shakashaka),
           ("shakashaka", (2, 2, [[None, 2], [None, None]]), {}, rule_shakashaka),
           ("shakashaka", (2, 2, [[None, 0], [None, None]]), {}, rule_shakashaka),
+          # a numbered black cell next to the diamond, in each orientation of the board
+          ("shakashaka", (2, 3, [[None, None, None], [1, None, None]]), {}, rule_shakashaka),
+          ("shakashaka", (2, 3, [[None, None, 1], [None, None, None]]), {}, rule_shakashaka),
+          ("shakashaka", (3, 2, [[None, None], [None, None], [None, 1]]), {}, rule_shakashaka),
+          ("shakashaka", (3, 2, [[-1, None], [None, None], [None, None]]), {}, rule_shakashaka),
           # 3x3 with a numbered black corner: 5^8 answers, so only "every admitted answer obeys the rules" is decided here
           ("shakashaka", (3, 3, [[2, None, None], [None, None, None], [None, None, None]]), {"__sound_only__": True}, rule_shakashaka),
           ("shakashaka", (3, 3, [[0, None, None], [None, None, None], [None, None, None]]), {"__sound_only__": True}, rule_shakashaka)]
@@ -1696,14 +1713,16 @@ def _job(args) -> Tuple[str, str, int]:
                 if not ok(pat):
                     return "bad", f"{label}: the posted constraints admit the answer {_show(pat)} which the published rules reject", n
             return "ok", label + f" [{len(found)} admitted answers, each obeys the rules]", n
+        n_sol = 0
         for pat in itertools.product(*doms):
             n += 1
             got = all(v in o for v, o in zip(pat, own)) and ext.sat(dict(zip(ids, pat)))
             want = ok(pat)
+            n_sol += bool(want)
             if got != want:
                 return "bad", (f"{label}: the posted constraints {'admit' if got else 'reject'} the answer {_show(pat)} "
                                f"which the published rules {'reject' if got else 'admit'}"), n
-        return "ok", label, n
+        return "ok", label + f" [{n_sol} rule-obeying grids]", n
     except TimeoutError:
         if not native:
             return "skipped", f"{label}: enumeration budget exceeded", 0  # the native run is the deciding one
@@ -1756,8 +1775,15 @@ def run(repo: Repo, rep: Report, only: Optional[List[str]] = None) -> None:
         elif und:
             rep.undecide("PZ-X", und[0][1])
         else:
-            rep.ok("PZ-X", f"{fn}: admitted answers == rule-obeying grids on {len(rs)} instances ({sum(r[2] for r in rs)} answers decided)",
-                   points=sum(r[2] for r in rs))
+            import re as _re
+            sols = [int(m_.group(1)) for r in rs for m_ in [_re.search(r"\[(\d+) rule-obeying grids\]", r[1])] if m_]
+            if sols and not any(sols) and only is None:
+                # every instance of this puzzle is unsatisfiable by the rules: agreement of two empty sets says next to nothing
+                rep.undecide("PZ-X", f"{fn}: none of its {len(sols)} instances has a rule-obeying grid - the comparison is vacuous")
+                continue
+            rep.ok("PZ-X", f"{fn}: admitted answers == rule-obeying grids on {len(rs)} instances ({sum(r[2] for r in rs)} answers decided; "
+                           f"{sum(1 for x in sols if x)} instances with solutions, {sum(sols)} rule-obeying grids in all)",
+                   points=sum(r[2] for r in rs), sample=True)
     if only is None:
         rep.floor("PZ-X", 10)
     rep.assume("PZ-X covers " + ", ".join(sorted(per)) + " on boards of at most 12 answer variables; the other bundled solvers' rules "
